@@ -12,6 +12,7 @@ import (
 
 	"verifsa/internal/bits"
 	"verifsa/internal/core"
+	"verifsa/internal/load"
 	"verifsa/internal/paths"
 	"verifsa/internal/prover"
 )
@@ -356,6 +357,22 @@ func parseRule(c *core.Ctx) {
 				if _, isConst := e.Cond.(*ssa.Const); !isConst {
 					props = append(props, proposition(e))
 				}
+				// strings.HasPrefix(content, P) found true with P a constant string (a literal, or a package-level variable that is
+				// initialised once with a constant and never written again): content[i] == P[i] for every octet of P
+				if call, isC := e.Cond.(*ssa.Call); isC && e.Taken {
+					if cal := call.Call.StaticCallee(); cal != nil && cal.Pkg != nil && cal.Pkg.Pkg.Path() == "strings" && cal.Name() == "HasPrefix" && len(call.Call.Args) == 2 {
+						if resolveIn(e, call.Call.Args[0]) == ssa.Value(fn.Params[0]) {
+							if pre, okP := constStringValue(c, resolveIn(e, call.Call.Args[1])); okP {
+								for i := 0; i < len(pre); i++ {
+									props = append(props, fmt.Sprintf("p0[k%d]==k%d", i, pre[i]))
+								}
+								if len(pre) > 0 {
+									props = append(props, fmt.Sprintf("len(p0)>=k%d", len(pre)))
+								}
+							}
+						}
+					}
+				}
 				// two small arrays found equal ([3]byte{c[0], c[1], c[2]} == [3]byte{5, 0, 3}): every pair of elements is equal
 				if bo, ok := e.Cond.(*ssa.BinOp); ok && ((bo.Op == token.EQL && e.Taken) || (bo.Op == token.NEQ && !e.Taken)) {
 					elems := func(v ssa.Value) []ssa.Value {
@@ -491,4 +508,79 @@ func onceStoredElems(al *ssa.Alloc) []ssa.Value {
 		}
 	}
 	return out
+}
+
+// constStringValue: v is a string constant, or a load of a package-level string variable whose declaration initialises it
+// with a constant expression - a literal, or string([]byte{c0, c1, ...}) of constants - and that no function of the module
+// stores to.
+func constStringValue(c *core.Ctx, v ssa.Value) (string, bool) {
+	if k, ok := v.(*ssa.Const); ok && k.Value != nil && k.Value.Kind() == constant.String {
+		return constant.StringVal(k.Value), true
+	}
+	ld, ok := v.(*ssa.UnOp)
+	if !ok || ld.Op != token.MUL {
+		return "", false
+	}
+	g, ok := ld.X.(*ssa.Global)
+	if !ok || g.Pkg == nil || !load.InModule(g.Pkg.Pkg) {
+		return "", false
+	}
+	// never stored to outside the package initialiser
+	for fn := range ssaFunctions(c.Prog) {
+		if fn.Name() == "init" || strings.HasPrefix(fn.Name(), "init#") {
+			continue
+		}
+		for _, b := range fn.Blocks {
+			for _, ins := range b.Instrs {
+				if st, isSt := ins.(*ssa.Store); isSt && st.Addr == ssa.Value(g) {
+					return "", false
+				}
+			}
+		}
+	}
+	pkg := c.Prog.ByPath[g.Pkg.Pkg.Path()]
+	if pkg == nil {
+		return "", false
+	}
+	for _, f := range pkg.Syntax {
+		for _, d := range f.Decls {
+			gd, isG := d.(*ast.GenDecl)
+			if !isG || gd.Tok != token.VAR {
+				continue
+			}
+			for _, sp := range gd.Specs {
+				vs := sp.(*ast.ValueSpec)
+				for i, n := range vs.Names {
+					if n.Name != g.Name() || i >= len(vs.Values) {
+						continue
+					}
+					e := ast.Unparen(vs.Values[i])
+					if tv, okT := pkg.TypesInfo.Types[e]; okT && tv.Value != nil && tv.Value.Kind() == constant.String {
+						return constant.StringVal(tv.Value), true
+					}
+					// string([]byte{c0, c1, ...})
+					if call, isCall := e.(*ast.CallExpr); isCall && len(call.Args) == 1 {
+						if tv, okT := pkg.TypesInfo.Types[call.Fun]; okT && tv.IsType() {
+							if cl, isCL := ast.Unparen(call.Args[0]).(*ast.CompositeLit); isCL {
+								var out []byte
+								for _, el := range cl.Elts {
+									ev, okE := pkg.TypesInfo.Types[el]
+									if !okE || ev.Value == nil {
+										return "", false
+									}
+									k, exact := constant.Int64Val(constant.ToInt(ev.Value))
+									if !exact || k < 0 || k > 255 {
+										return "", false
+									}
+									out = append(out, byte(k))
+								}
+								return string(out), true
+							}
+						}
+					}
+				}
+			}
+		}
+	}
+	return "", false
 }
